@@ -216,10 +216,95 @@ def classify(fx, eng, fid, L, all_loops, iof):
                 return "RANGE-SIZE", d
             if consuming:
                 return "RANGE-READ", d
+            tb = table_bounded(fx, fid, body, L, all_loops)
+            if tb:
+                d["table"] = tb
+                return "RANGE-TABLE", d
             return "RANGE-PARSED", d
     if consuming:
         return "READ", {"consuming": True}
     return "UNCLASSIFIED", {}
+
+
+GET_CALLS = ("core::slice::get", "core::slice::get_mut", "core::slice::<impl [T]>::get", "core::slice::<impl [T]>::get_mut")
+
+
+def _traf_region(body, blk):
+    """'frag' / 'nonfrag' when `blk` is dominated by one side of a test of `trafs.is_empty()`, else None"""
+    for b in range(body.n):
+        t = body.term(b)
+        if t["k"] != "switch":
+            continue
+        pl = op_place(t["discr"])
+        sd = body.single_def(pl["l"]) if pl is not None and not pl["p"] else None
+        neg = False
+        if sd is not None and sd[2] == "assign" and sd[3]["k"] == "un" and sd[3].get("op") == "Not":
+            neg = True
+            pl2 = op_place(sd[3]["a"])
+            sd = body.single_def(pl2["l"]) if pl2 is not None and not pl2["p"] else None
+        if sd is None or sd[2] != "call" or strip_generics(sd[3]["callee"].get("path") or "") != "alloc::vec::Vec::is_empty" or "trafs" not in body.canon_op(sd[3]["args"][0]):
+            continue
+        f_t = [tg for v, tg in t["targets"] if v == 0]
+        if not f_t:
+            continue
+        false_t, true_t = f_t[0], t["otherwise"]
+        empty_t, nonempty_t = (false_t, true_t) if neg else (true_t, false_t)
+        if blk == nonempty_t or (body.dominates(nonempty_t, blk) and not body.dominates(empty_t, blk)):
+            return "frag"
+        if blk == empty_t or (body.dominates(empty_t, blk) and not body.dominates(nonempty_t, blk)):
+            return "nonfrag"
+    return None
+
+
+def table_bounded(fx, fid, body, L, all_loops):
+    """a loop whose bound is a parsed value but whose every iteration calls, with `?`, a local function that can only succeed by
+    finding an element of an in-memory table at a position derived from the loop variable: the loop ends at the first missing
+    element, so it runs at most len(table) + 1 times (in-memory, hence bounded by the input length under the allocation rules).
+    Returns a description or None.  The callee is examined in the same fragmented / non-fragmented region as the loop."""
+    nb, nt = LP.driver_next_call(body, L, all_loops)
+    if nt is None:
+        return None
+    item = nt["dest"]["l"]
+    region = _traf_region(body, L.head)
+    for b, t in LP.calls_in(body, L.own_blocks(all_loops)):
+        g = callee_path(t["callee"])
+        gf = fx.fns.get(g)
+        gb = body_of(gf) if gf else None
+        if gb is None or not str(gf.get("output_s") or "").startswith("core::result::Result<"):
+            continue
+        fed = [i for i, a in enumerate(t["args"]) if op_place(a) is not None and derives_from(body, op_place(a)["l"], item)]
+        if not fed:
+            continue
+        # the error of the call leaves the loop: its result goes through `?` (Try::branch) in the loop
+        dl = t["dest"]["l"]
+        tried = any(strip_generics(t2["callee"].get("path") or "") == "core::ops::try_trait::Try::branch" and op_place(t2["args"][0]) is not None and derives_from(body, op_place(t2["args"][0])["l"], dl)
+                    for _b2, t2 in LP.calls_in(body, L.blocks))
+        if not tried:
+            continue
+        # every Ok result of g (in the region) is produced under the Some edge of a `get` on a collection, at an index derived from the fed parameter
+        oks = [ob for ob in LP.ok_blocks(gb) if region is None or _traf_region(gb, ob) in (region, None)]
+        if not oks:
+            continue
+        guards = []
+        for gb_, gt in gb.calls():
+            if strip_generics(gt["callee"].get("path") or "") in GET_CALLS and len(gt["args"]) == 2:
+                ipl = op_place(gt["args"][1])
+                if ipl is None or not any(derives_from(gb, ipl["l"], p_ + 1) for p_ in fed):
+                    continue
+                # the switch on the Option's discriminant
+                for sb in range(gb.n):
+                    st_ = gb.term(sb)
+                    if st_["k"] != "switch":
+                        continue
+                    dp = op_place(st_["discr"])
+                    sd = gb.single_def(dp["l"]) if dp is not None and not dp["p"] else None
+                    if sd is not None and sd[2] == "assign" and sd[3]["k"] == "discr" and derives_from(gb, sd[3]["place"]["l"], gt["dest"]["l"]):
+                        some_t = [tg for v, tg in st_["targets"] if v == 1]
+                        if some_t:
+                            guards.append((some_t[0], gb.canon_op(gt["args"][0])))
+        if guards and all(any(ob == g0 or gb.dominates(g0, ob) for g0, _ in guards) for ob in oks):
+            return "each iteration calls %s, which succeeds only when %s holds an element at the requested position" % (fn_short(g), sorted({c for _, c in guards})[0][:80])
+    return None
 
 
 def check_boxwalk(fx, eng, chk, fid, fn, L, all_loops, d, key):
@@ -419,7 +504,7 @@ def derives_from(body, local, root, depth=0, seen=None):
 
 
 def run(fx, chk, tier):
-    chk.rule("R-CLASS", "every loop in the reader closure is L-ITER, L-RANGE (const/narrow/len/size-guarded), L-RANGE-READ, L-READ or L-BOXWALK")
+    chk.rule("R-CLASS", "every loop in the reader closure is L-ITER, L-RANGE (const/narrow/len/size-guarded/table-bounded), L-RANGE-READ, L-READ or L-BOXWALK")
     chk.rule("R-BOXWALK.i", "exactly one BoxHeader::read per iteration, dominating the back edge")
     chk.rule("R-BOXWALK.ii", "every reposition after the header read is driven by the size just read")
     chk.rule("R-BOXWALK.iii", "the stream position is re-read every iteration")
@@ -463,7 +548,9 @@ def run(fx, chk, tier):
             key = base if n == 0 else "%s#%d" % (base, n)
             site = site_of(fn, L.line)
             k = L.kind
-            if k in ("ITER", "RANGE-CONST", "RANGE-LEN", "RANGE-GUARDED", "RANGE-SIZE", "RANGE-READ", "READ"):
+            if k == "RANGE-TABLE":
+                chk.ok("R-CLASS", key, "bound is a parsed value, but " + L.detail.get("table", ""), site, L.detail)
+            elif k in ("ITER", "RANGE-CONST", "RANGE-LEN", "RANGE-GUARDED", "RANGE-SIZE", "RANGE-READ", "READ"):
                 chk.ok("R-CLASS", key, {"ITER": "L-ITER over " + L.detail.get("iterator", ""), "RANGE-CONST": "constant/narrow bound %s" % L.detail.get("end"),
                                         "RANGE-LEN": "bound is a len()", "RANGE-GUARDED": "bound guarded by a size-derived expression %s" % L.detail.get("ub"),
                                         "RANGE-SIZE": "bound computed from the box size", "RANGE-READ": "every iteration reads from the stream",
@@ -477,7 +564,7 @@ def run(fx, chk, tier):
                 chk.bad("R-CLASS", key, "loop could not be classified (%s): no progress/bound argument" % k, site, L.detail)
     # ---- cost degree: an in-memory / parsed-bound loop nested (directly or through a callee) in another such loop is
     # degree 2 unless the inner collection is owned by the outer loop's element (tree traversal: total = sum of sizes)
-    MEM = ("ITER", "RANGE-LEN", "RANGE-PARSED")
+    MEM = ("ITER", "RANGE-LEN", "RANGE-PARSED", "RANGE-TABLE")
 
     def amortised(L):
         return L.kind in ("BOXWALK", "READ", "RANGE-READ", "RANGE-GUARDED", "RANGE-SIZE")
@@ -503,6 +590,22 @@ def run(fx, chk, tier):
                     best = 1
                     break
         mem_depth[fid] = best
+    def mem_in_region(g, region, depth=0):
+        """does callee g loop over an in-memory collection on the side of the `trafs.is_empty()` split the caller's loop is on?
+        (a lookup called from the non-fragmented branch never runs the callee's fragment search)"""
+        if region is None or depth > 4:
+            return True
+        gb = body_of(fx.fns[g]) if g in fx.fns else None
+        if gb is None:
+            return True
+        for L_ in fn_loops.get(g, []):
+            if L_.kind in MEM and _traf_region(gb, L_.head) in (region, None):
+                return True
+        for b_, t_ in gb.calls():
+            q = callee_path(t_["callee"])
+            if mem_depth.get(q) and _traf_region(gb, b_) in (region, None) and mem_in_region(q, region, depth + 1):
+                return True
+        return False
     for fid in sorted(fn_loops):
         fn = fx.fns[fid]
         body = body_of(fn)
@@ -517,9 +620,10 @@ def run(fx, chk, tier):
             for o in L.nested:
                 if o.kind in MEM and not derives_from(body, loop_iter_local(body, o, ls), elem_root):
                     probs.append(("nested", site_of(fn, o.line), "a second in-memory loop over a collection that does not belong to the outer loop's element"))
+            region = _traf_region(body, L.head)
             for b, t in LP.calls_in(body, L.blocks):
                 p = callee_path(t["callee"])
-                if mem_depth.get(p):
+                if mem_depth.get(p) and mem_in_region(p, region):
                     recv = op_place(t["args"][0]) if t["args"] else None
                     if recv is None or not derives_from(body, recv["l"], elem_root):
                         probs.append(("calls|" + fn_short(p), site_of(fn, t.get("line")), "each iteration calls %s, which loops over an in-memory collection that is not owned by the loop element" % fn_short(p)))
